@@ -1,5 +1,5 @@
 \* C09 observation mode: cases (glyphs, masters with groups and kerning read from UFO plists) come from the ndjson
-\* file named by the environment variable C09_CASES; only the oracle UfoLookup is evaluated (model = FALSE).
+\* file named by the environment variable C09_CASES; the oracle UfoLookup is evaluated, the transcription only when the case says model = true (--replay).
 \* The generator constants are unused.
 SPECIFICATION Spec
 CONSTANTS
